@@ -59,7 +59,10 @@ fn judge(ctx: &mut Ctx, case: &Case, what: &str, r: Result<BigDecimal, String>, 
         Ok(v) => {
             ctx.out_bd(&v);
             let g = Dec::of(&v);
-            ctx.check(model::eq_dec(&g, &want), "cbrt/not-correctly-rounded", case, || format!("`{}`: cbrt({}) p={} {} = {} want {}", what, x.tok(), p, mode_name(mode), g.tok(), want.tok()));
+            let held = ctx.check(model::eq_dec(&g, &want), "cbrt/not-correctly-rounded", case, || format!("`{}`: cbrt({}) p={} {} = {} want {}", what, x.tok(), p, mode_name(mode), g.tok(), want.tok()));
+            if what == "cbrt_with_context" && ctx.want_event() && x.tok().len() < 400 {
+                ctx.log("cbrt", &[x.tok()], serde_json::json!({"p": p, "mode": mode_name(mode)}), g.tok(), held);
+            }
             // directed modes on the signed value: Ceiling => r >= true root, Floor => r <= true root, Up => |r| >= |root|, Down => |r| <= |root|
             let c = cmp_power(&g, 3, &mag, x.s); // |g|^3 vs |x|
             let sign_ok = g.n.is_zero() || g.n.is_negative() == neg;
